@@ -36,6 +36,7 @@ pub fn regime_cfg(r: Regime, rng: &mut Rng, sqlite_pct: u32) -> SimCfg {
         Regime::Unrestricted => {
             c.causal = false;
             c.proposals_first = false;
+            c.bounded_depth = false;
         }
         Regime::CausalNoPropFirst => {
             c.proposals_first = false;
@@ -55,6 +56,12 @@ pub fn regime_cfg(r: Regime, rng: &mut Rng, sqlite_pct: u32) -> SimCfg {
 }
 
 pub fn run(ctx: &Ctx) -> i32 {
+    let (prop, out) = run_outcome(ctx);
+    let (rule, floors, assumptions) = describe(prop, &out, ctx);
+    finish(ctx, "exploration", rule, out, floors, assumptions, json!({}))
+}
+
+pub fn run_outcome(ctx: &Ctx) -> (&'static str, Outcome) {
     let prop: &'static str = match ctx.prop.as_str() {
         "C01" => "C01",
         "C02" => "C02",
@@ -91,6 +98,10 @@ pub fn run(ctx: &Ctx) -> i32 {
         let mut sim = regime_cfg(regime, rng, sqlite_pct);
         if prop == "C08" {
             sim.second_group = rng.chance(40);
+        }
+        if prop == "C18" {
+            sim.w_msg = 40;
+            sim.rumor_ts_values = 2;
         }
         let cfg = HistCfg { sim, redelivery_pct: if prop == "C07" { 25 } else { 0 }, judge_c01: prop == "C01" || prop == "C02", judge_c02: prop == "C02", keep_world: false };
         let tag = format!("{}-{}", prop.to_lowercase(), i);
@@ -143,13 +154,14 @@ pub fn run(ctx: &Ctx) -> i32 {
             if !seen.insert(f.signature.clone()) {
                 continue;
             }
-            let sig = if regime == Regime::Clean && (prop == "C01") { f.signature.clone() } else { f.signature.clone() };
+            // in the clean regime none of the known predicates can hold by construction: whatever
+            // the classifier says, a finding there never matches a known-findings line
+            let sig = if regime == Regime::Clean { format!("{}|in-clean-regime", f.signature) } else { f.signature.clone() };
             out.violation(sig, format!("[regime {regime:?}, scenario {i}] {}", f.detail), json!({"kind": "history", "scenario": i, "seed": ctx.seed, "regime": format!("{regime:?}"), "log": res.log, "trace": res.trace, "sample": res.sample}));
         }
     });
     let _ = std::fs::remove_dir_all(&dir);
-    let (rule, floors, assumptions) = describe(prop, &out, ctx);
-    finish(ctx, "exploration", rule, out, floors, assumptions, json!({}))
+    (prop, out)
 }
 
 fn describe(prop: &str, out: &Outcome, ctx: &Ctx) -> (&'static str, Vec<Floor>, Vec<String>) {
